@@ -109,6 +109,7 @@ structure OS where
   replies : List (Nat × Nat) := []        -- (port, value) actually sent by the real callee
   groups : List (List Nat) := []          -- member ports per multi_call group
   expectFwd : List (Nat × Nat) := []      -- (target, value) forwards announced by `fdone …+ok`
+  dead : List Nat := []                   -- actors the implementation reported as stopped (`# died …`)
   asup : List (Option Nat) := []          -- per spawned actor: the supervisor it was linked to
   supsAlive : List Bool := []             -- per supervisor: not yet killed by the harness
 
@@ -258,23 +259,34 @@ def modelHandlePre (o : OS) (before : S) (a : Nat) (act : Act) : String :=
     | [] => "idle"
   | none => "idle"
 
-def step (ds : DS) (op impl : String) : DS × StepOut :=
+/-- `obs # died a,b` → (obs, [a,b]) -/
+def splitDied (impl : String) : String × List Nat :=
+  match impl.splitOn " # died " with
+  | [o, d] => (o, (natList? d).getD [])
+  | _ => (impl, [])
+
+def step (ds : DS) (op implFull : String) : DS × StepOut :=
+  let (impl, idied) := splitDied implFull
   let (ipre, ievs) := parseEvents impl
   -- actors that stop in this step (kill, stop, or a draining actor reaching its marker) drop
   -- every port they still own
-  let died (m m' : S) (o : OS) : OS :=
-    (List.range m'.actors.length).foldl (fun o a =>
+  -- which actors stopped is the IMPLEMENTATION's report (`# died …`); deaths not already accounted for by
+  -- the op itself (kill / failure / supervisor death) are graceful: stop or drain completion
+  let died (o : OS) : OS :=
+    idied.foldl (fun o a =>
+      let o := gracefulHolds o a
+      -- a forward owed to an actor that stops is no longer owed
+      { o with expectFwd := o.expectFwd.filter (fun fv => fv.1 != a), dead := a :: o.dead }) o
+  -- the model's own account of who stopped in this step, in the same format
+  let modelDied (m m' : S) : String :=
+    let l := (List.range m'.actors.length).filter (fun a =>
       match m.actors[a]?, m'.actors[a]? with
-      | some x, some x' =>
-        -- a forward owed to an actor that stops is no longer owed
-        if x.alive && !x'.alive then
-          let o := gracefulHolds o a
-          { o with expectFwd := o.expectFwd.filter (fun fv => fv.1 != a) }
-        else o
-      | _, _ => o) o
+      | some x, some x' => x.alive && !x'.alive
+      | _, _ => false)
+    if l.isEmpty then "" else s!" # died {",".intercalate (l.map toString)}"
   let finish (m' : S) (pre : String) (o' : OS) (nt : Bool) (extraBad : List String := []) : DS × StepOut :=
-    let model := fmt pre (events ds.m m')
-    let (o2, bad) := judge (died ds.m m' o') ievs
+    let model := fmt pre (events ds.m m') ++ modelDied ds.m m'
+    let (o2, bad) := judge (died o') ievs
     ({ m := m', o := o2 }, { model := model, oracle := extraBad ++ bad ++ hanging o2, nontrivial := nt })
   let run1 (mop : Op) (pre : String) (o' : OS) (nt : Bool) : DS × StepOut :=
     finish (Rpc.step ds.m mop) pre o' nt
@@ -372,7 +384,7 @@ def step (ds : DS) (op impl : String) : DS × StepOut :=
         | _ => (o', [])
       -- an announced (`+ok`) forward / accepted cast must reach the target's handler: an actor that
       -- is alive, owed a message and reports an empty mailbox has lost it
-      let aliveM := match ds.m.actors[a]? with | some x => x.alive | none => false
+      let aliveM := !ds.o.dead.contains a
       let fbad := fbad ++ (if ipre == "idle" && aliveM && o'.expectFwd.any (fun fv => fv.1 == a)
         then ["c09.forward-announced-but-not-delivered"] else [])
       finish (Rpc.step ds.m (.handle a act)) (modelHandlePre ds.o ds.m a act) o'' (ipre.startsWith "handled") (fbad ++ timeoutClause ds.o ipre)
@@ -452,8 +464,7 @@ def step (ds : DS) (op impl : String) : DS × StepOut :=
     | some a =>
       -- a kill never boxes the state: everything the (still alive) actor owned is dropped; killing an
       -- actor that already stopped does not touch a state a supervisor may still hold
-      let wasAlive := match ds.m.actors[a]? with | some x => x.alive | none => false
-      run1 (.exit a) "ok" (if wasAlive then killHolds ds.o a else ds.o) true
+      run1 (.exit a) "ok" (if idied.contains a then killHolds ds.o a else ds.o) true
     | none => (ds, { model := "bad-op" })
   | ["stop", a, act] =>
     match a.toNat?, parseAct? act with
@@ -481,9 +492,8 @@ def step (ds : DS) (op impl : String) : DS × StepOut :=
   | ["drain", a] =>
     match a.toNat? with
     | some a =>
-      -- an actor with an empty mailbox stops at once and drops what it kept
-      let idle := match ds.m.actors[a]? with | some x => x.mailbox.isEmpty | none => true
-      run1 (.drain a) "ok" (if idle then gracefulHolds ds.o a else ds.o) true
+      -- (an actor with an empty mailbox stops at once: reported by `# died`)
+      run1 (.drain a) "ok" ds.o true
     | none => (ds, { model := "bad-op" })
   | ["advance", d] =>
     match d.toNat? with
